@@ -81,6 +81,7 @@ type Exec struct {
 	denseIntMaps map[string][2]int
 	callN        map[string]int
 	muted        bool
+	curBind      []Val
 	initSeen     map[int]bool
 	safetySeen   map[int][]*Term
 	watch        []WatchTerm
@@ -132,7 +133,7 @@ func (x *Exec) oblige(st *State, kind, label string, goal *Term, note string) {
 		}
 		x.obls = append(x.obls, o)
 	}
-	if len(parts) > 1 && len(parts) <= 400 && (kind == "ensures" || kind == "callpre" || kind == "inv-entry" || kind == "inv-preserve") {
+	if len(parts) > 1 && len(parts) <= 400 && (kind == "ensures" || kind == "callpre" || kind == "inv-entry" || kind == "inv-preserve" || kind == "assert") {
 		// split a conjunctive goal: one small query per conjunct (they are discharged in parallel)
 		for k, p := range parts {
 			g := Implies(st.pc, p)
@@ -309,7 +310,9 @@ func (x *Exec) initialRefs(t *Term, depth int) {
 			}
 			if !x.initSeen[t.id] {
 				x.initSeen[t.id] = true
-				x.assumeGlobal(And(Le(IntLit(0), t), Lt(t, x.alloc0)))
+				if !mentionsBound(t) {
+					x.assumeGlobal(And(Le(IntLit(0), t), Lt(t, x.alloc0)))
+				}
 			}
 		}
 	case "ite":
@@ -747,11 +750,40 @@ func (x *Exec) runLoopInvariant(cfg *FuncCFG, l *Loop, spec *LoopSpec, entry []e
 		}
 	}
 	written, allocs := x.P.loopEffects(cfg, l)
+	// Havoc precisely: a written family keeps its loop-entry contents except (a) at the locations of
+	// the function's modifies clause and (b) at objects allocated since the function started. That
+	// nothing else changes per iteration is checked at every back edge (loopframe obligations).
+	var flocs []hloc
+	if c := x.P.contracts[cfg.fn]; c != nil && c.HasMod && cfg.fn == x.fn {
+		ce0 := x.newCEnv(st0)
+		flocs = x.modifiesLocs(ce0, c)
+	} else {
+		flocs = nil
+	}
+	preciseFrame := x.P.contracts[cfg.fn] != nil && x.P.contracts[cfg.fn].HasMod && cfg.fn == x.fn
+	writtenSet := map[string]bool{}
 	for _, fam := range written {
-		if fi, ok := famReg[fam]; ok {
+		fi, ok := famReg[fam]
+		if !ok {
+			continue
+		}
+		writtenSet[fam] = true
+		if !preciseFrame {
 			sth.heap.Set(fam, freshBase(fam+"!loop", fi.arity, fi.sort))
+			continue
+		}
+		node := sth.heap.Get(fam, fi.arity, fi.sort)
+		if fi.arity > 0 {
+			node = node.Overlay(freshBase(fam+"!loopnew", fi.arity, fi.sort), x.alloc0)
+		}
+		sth.heap.Set(fam, node)
+		for _, hl := range flocs {
+			if hl.fam == fam {
+				hl.apply(sth.heap)
+			}
 		}
 	}
+	headHeap := sth.heap.Clone()
 	if allocs {
 		na := FreshVar("alloc.loop", SInt)
 		x.assume(sth, Ge(na, sth.alloc))
@@ -777,6 +809,9 @@ func (x *Exec) runLoopInvariant(cfg *FuncCFG, l *Loop, spec *LoopSpec, entry []e
 		}
 		for _, e := range ees {
 			stb := x.mergeAt(l.Header, []edgeState{e})
+			if preciseFrame {
+				x.frameAgainst(stb, headHeap, flocs, "loopframe", fmt.Sprintf("%s.loop%d.", fnName, l.Ordinal), writtenSet)
+			}
 			for i, c := range spec.Invariants {
 				lbl := c.Label
 				if lbl == "" {
@@ -930,6 +965,9 @@ func (x *Exec) step(st *State, in ssa.Instruction) {
 		for k := len(ds) - 1; k >= 0; k-- {
 			x.call(st, ds[k], ds[k].Common())
 		}
+	case *ssa.MakeChan:
+		// channels are never operated on by verified code (send/receive sit in trusted functions)
+		st.env[i] = Val{K: VOpaque, Typ: i.Type()}
 	case *ssa.Go:
 		unsupported("go statement in %s", shortFuncName(in.Parent()))
 	case *ssa.DebugRef:
@@ -1539,4 +1577,26 @@ func conjSet(t *Term) map[int]bool {
 		m[t.id] = true
 	}
 	return m
+}
+
+// mentionsBound: does the term mention a quantifier-bound variable (named name!qN)?
+func mentionsBound(t *Term) bool {
+	seen := map[int]bool{}
+	var rec func(t *Term) bool
+	rec = func(t *Term) bool {
+		if seen[t.id] {
+			return false
+		}
+		seen[t.id] = true
+		if t.op == "var" && strings.Contains(t.name, "!q") {
+			return true
+		}
+		for _, a := range t.args {
+			if rec(a) {
+				return true
+			}
+		}
+		return false
+	}
+	return rec(t)
 }
